@@ -150,7 +150,10 @@ def trees(tier):
             yield 'ui-rot', assoc(2, [app(), pcac(), ui([K[k][which % len(K[k])] for k in reversed(order)])])
     if thorough:
         for k1, k2, k3 in itertools.product(KINDS, repeat=3):
-            yield 'ui-triple', assoc(1, [app(), pcrq(), ui([K[k1][0], K[k2][-1], K[k3][1]])])
+            for i1, i2, i3 in itertools.product((0, -1, 1), repeat=3):
+                yield 'ui-triple', assoc(1 + (i1 + i2 + i3) % 2, [app(), canon_pc[1 + (i1 + i2 + i3) % 2], ui([K[k1][i1], K[k2][i2], K[k3][i3]])])
+        for ks in itertools.product(KINDS, repeat=4):
+            yield 'ui-quad', assoc(2, [app(), pcac(), ui([K[k][0] for k in ks])])
     yield 'ui-empty', assoc(1, [app(), pcrq(), ui([])])
     yield 'ui-res', assoc(2, [app(), pcac(), ui([K['ML'][0]], res=0xAB)])
     # 3. variable item lists: every list of length 0..3 (4 thorough) over {APP, PC, UI}, both PDU types
@@ -158,7 +161,7 @@ def trees(tier):
     big_ui = ui([K['ML'][0], K['ICU'][0], K['IVN'][0], K['ROLE'][0], K['EXT'][0], K['UID58'][0]])
     for p in (1, 2):
         alpha = {'A': app(), 'P': canon_pc[p], 'U': std_ui}
-        for n in range(0, 5 if thorough else 4):
+        for n in range(0, 6 if thorough else 4):
             for combo in itertools.product('APU', repeat=n):
                 items = []
                 pid = 1
@@ -218,6 +221,18 @@ def trees(tier):
     if thorough:
         for combo in itertools.product((1, 2, 65536, 70001), repeat=3):
             yield 'pdata-3big', pdata([(1, payload(n, i)) for i, n in enumerate(combo)])
+        for combo in itertools.product((1, 2, 3, 255, 256, 257), repeat=3):
+            yield 'pdata-3mid', pdata([(3, payload(n, i)) for i, n in enumerate(combo)])
+        for combo in itertools.product((1, 2, 256, 65536), repeat=4):
+            yield 'pdata-4mid', pdata([(1 + 2 * i, payload(n, i)) for i, n in enumerate(combo)])
+        for a in range(256):
+            for b in range(256):
+                yield 'abort-all', abort(a, b)
+        for v in range(256):
+            for o1, o2 in itertools.product((0, 1, 2, 3, 128, 255), repeat=2):
+                yield 'rj-axis', rj(v, o1, o2)
+                yield 'rj-axis', rj(o1, v, o2)
+                yield 'rj-axis', rj(o1, o2, v)
     yield 'pdata-res', pdata([(1, payload(5, 3))], res=0xEE)
     yield 'pdata-4big', pdata([(1, payload(70001, 0)), (1, payload(65536, 0)), (3, payload(65537, 2)), (5, payload(1, 3))])
 
